@@ -352,7 +352,7 @@ func raceChannel(ov *raceOverlap, scripts [][]int) {
 	raceRun(scripts, func(g int, script []int) {
 		for _, op := range script {
 			switch {
-			case op < 45:
+			case op < 40:
 				d := ov.enter("Get")
 				gctx, gcancel := context.WithTimeout(ctx, 300*time.Microsecond)
 				v, err := ch.Get(gctx)
@@ -361,25 +361,25 @@ func raceChannel(ov *raceOverlap, scripts [][]int) {
 				if err == nil {
 					raceReadPayload(v)
 				}
-			case op < 60:
+			case op < 52:
 				d := ov.enter("Commit")
 				_ = ch.Commit()
 				d()
-			case op < 75:
+			case op < 64:
 				d := ov.enter("Rollback")
 				_ = ch.Rollback()
 				d()
-			case op < 90:
+			case op < 86:
 				d := ov.enter("Buffer")
 				for _, v := range ch.Buffer() {
 					raceReadPayload(v)
 				}
 				d()
-			case op < 95:
+			case op < 89:
 				d := ov.enter("Done")
 				_ = ch.Done()
 				d()
-			case op < 97:
+			case op < 92:
 				d := ov.enter("Close")
 				_ = ch.Close()
 				d()
